@@ -9,7 +9,18 @@ import Hertz.Proofs.RespMessage
 C05 model (`HW.RespHdr.bytes`, proved to read back as exactly the fields set).  The check runs handler
 programs (status × body mode × sizes × method × keep-alive/close × HTTP/1.0/1.1 × sequences) on the real
 server, decodes the real bytes with the strict reader `Spec.Resp.decodeOne` *and* with `net/http`, and
-compares with the model's framing and body bytes.
+compares with the model's framing and body bytes.  Since round Q11 the check also compares the **whole
+message**: the harness dumps, per handler invocation, the response header state the writer starts from
+(all fields `ResponseHeader.AppendBytes` reads + the reason text; at the end of the handler, or immediately
+before the first `Write` of a hijacked chunked writer), the driver builds `r : HW.RespHdr` from the dump,
+applies the `Connection` edit `Server.Serve` makes after the handler (`close` / HTTP/1.0 `keep-alive`),
+takes the `Date` value from the response itself, computes `message r prog isHead`
+(`Model/Http1/RespMsg.lean`, the very definition `response_decodes` is about) for every response of the
+connection and requires the concatenation to be **equal** to the bytes the real server wrote (a prefix of
+them when the model says a body stream fails mid-message).  Handler programs now also set
+`Content-Length` / `Transfer-Encoding` themselves through `Header.Set`, before or after the body; the
+driver follows them with `setLengthHeader` / `withFraming` and cross-checks the framing fields it predicts
+(`contentLength`, `contentLengthBytes`, `Transfer-Encoding` in the generic fields) against each dump.
 
 Proved for all inputs:
 * `chunk_size_roundtrip`: a hex chunk size written by `WriteHexInt` reads back as the same number;
@@ -41,12 +52,27 @@ Proved for all inputs:
   (`SetStatusCode(1000)`/`(99)` written verbatim), `length_set_after_chunked_stream_fails_at`
   (finding: `SetBodyStream(r,-1)` + `Header.Set("Content-Length","5")` puts both framing headers on the
   wire with an unchunked body) — each replayed on the real server, bytes quoted in the statement.
+  The third is repaired in /repo (db53447); the theorem stays as a statement about the header state
+  `rBoth`, which the setters can no longer produce;
+* `set_length_header_keeps_invariant`: the repaired setter (`setLengthHeader` = `setSpecialHeader` for
+  `Content-Length`) maps every `HeadInv` state and every value `ParseContentLength` accepts to a `HeadInv`
+  state declaring exactly that number; `set_length_header_ignores_unparseable`: any other value changes nothing;
+* `length_header_after_chunked_stream_repaired`: the regression statement — the state after
+  `SetBodyStream(r,-1)` + `Header.Set("Content-Length","5")` is inside the invariant, the message equals the
+  bytes the repaired server writes (replayed), and decodes to the body with the rest untouched.
 
 TODO-OPEN (what remains outside the theorems):
-* `message`/`withFraming` (the header state after `SetContentLength`, glued to `frame`'s body bytes) is a
-  definition of the proof file `Proofs/RespMessage.lean`; the driver compares `frame` (framing + body bytes)
-  and, in C05, `RespHdr.bytes` with the real server, but not `message` as a whole — it is pinned to the real
-  bytes only by the `example`s below (four replayed responses, byte for byte);
+* (closed in round Q11) `message`/`withFraming` are now model definitions (`Model/Http1/RespMsg.lean`) and
+  part of the correspondence check, see above: every explored case compares `message` byte for byte with
+  the real output.  What the driver adds around `message` and is therefore still a per-case check, not a
+  theorem: the construction of `r` from the dump (incl. "Content-Type line only if
+  `ContentLength() != 0` or explicitly set", as in C05), the `Connection` edit of `Serve`, the effective
+  program (`effProg`: a `Content-Length` set after `SetBodyStream` replaces the declared length), the `Date`;
+* model limitation found while doing this (not a server defect): for a body stream whose length the header
+  already declares, `writeBodyStream` makes no `SetContentLength` call, `message` re-applies
+  `withFraming (.cl n)`; the two agree unless the handler wrote a non-canonical decimal
+  (`Header.Set("Content-Length","05")` after `SetBodyStream`: real `Content-Length: 05`, model `5`; both
+  well-formed, same framing).  The generator only emits canonical decimals after a stream;
 * a body stream that delivers fewer bytes than declared (`failed = true`) is excluded by hypothesis: the
   message is cut short and the connection closed (checked per case by the driver);
 * the `Connection` header decision (`connHeader`) and the sequencing of several responses on one connection
@@ -436,6 +462,73 @@ theorem length_set_after_chunked_stream_fails_at :
   rw [this]
   simp only [framingOf, sCL_eq, sTE_eq]
   decide +kernel
+
+/-! ### the repaired `Content-Length` setter
+
+/repo commit db53447: `ResponseHeader.setSpecialHeader` for `Content-Length` with a value
+`protocol.ParseContentLength` accepts now also deletes the generic `Transfer-Encoding` field (as
+`SetContentLength(n ≥ 0)` always did); a value that does not parse is ignored.  `setLengthHeader`
+(`Model/Http1/RespMsg.lean`) is the model of that setter; the driver follows every
+`Header.Set("Content-Length", v)` of a handler program with it and compares the framing fields it
+predicts with the header state dumped from the real server. -/
+
+/-- the repaired setter keeps the invariant and makes the header declare the number it was given:
+`Header.Set("Content-Length", v)` with `ParseContentLength(v) = n` on any reachable header state -/
+theorem set_length_header_keeps_invariant (r : HW.RespHdr) (st : Nat) (d : Spec.Resp.Framing) (v : Bytes) (n : Int)
+    (hr : HeadInv r st d) (hp : FS.parseUint v = .ok n) : HeadInv (setLengthHeader r v) st (.cl n.toNat) := by
+  obtain ⟨h1, h2, h3, hcl, hd⟩ := hr
+  obtain ⟨a, b⟩ := declares_setLengthHeader r d v n hcl hd hp
+  exact ⟨h1, h2, by rw [setLengthHeader_statusLine]; exact h3, a, b⟩
+
+/-- a value `ParseContentLength` rejects (empty, a non-digit anywhere, ≥ 2^63) leaves the header untouched -/
+theorem set_length_header_ignores_unparseable (r : HW.RespHdr) (v : Bytes) (e : FS.UErr)
+    (h : FS.parseUint v = .error e) : setLengthHeader r v = r :=
+  setLengthHeader_error r v e h
+
+/-- non-vacuity: `x`, the empty value and `5x` are rejected -/
+example : setLengthHeader rReal [120] = rReal ∧ setLengthHeader rReal [] = rReal ∧ setLengthHeader rReal [53, 120] = rReal :=
+  ⟨set_length_header_ignores_unparseable _ _ .trailing (by decide +kernel),
+   set_length_header_ignores_unparseable _ _ .empty (by decide +kernel),
+   set_length_header_ignores_unparseable _ _ .trailing (by decide +kernel)⟩
+
+/-- the engine's default header at the time of the replay below -/
+def rNow : HW.RespHdr := { rReal with date := some [84, 117, 101, 44, 32, 50, 57, 32, 83, 101, 112, 32, 50, 48, 50, 54, 32, 49, 50, 58, 51, 54, 58, 52, 48, 32, 71, 77, 84] }
+
+theorem rNow_ok : HeadOK rNow 200 :=
+  ⟨by decide, by decide, ⟨[79, 75], by unfold NoCRLF; decide, rfl⟩, rfl, by intro kv h; cases h⟩
+
+/-- `SetBodyStream(r, -1)` (→ `SetContentLength(-1)`) followed by `Header.Set("Content-Length", "5")`, on the
+repaired code: the header state the writer starts from -/
+def rRepaired : HW.RespHdr := setLengthHeader (withFraming rNow .chunked) [53]
+
+/-- **Regression statement for the repaired finding**: the state reached by `SetBodyStream(r, -1)` then
+`Header.Set("Content-Length", "5")` is inside the invariant again and declares `Content-Length: 5`;
+`writeBodyStream` reads `ContentLength() = 5` and sends the stream as a fixed-size body, i.e. the program
+the writer sees is `.stream 5 …`; the message is byte for byte what the real server writes now for
+`respw M:GET:1.1:0 BS:-1:6162636465 H:436f6e74656e742d4c656e677468:35` (replayed, these bytes: one
+`Content-Length: 5`, no `Transfer-Encoding`), and the strict reader decodes it to the body `abcde` with the
+following bytes untouched.  (Before the repair the state was `rBoth`, see
+`length_set_after_chunked_stream_fails_at`.) -/
+theorem length_header_after_chunked_stream_repaired (rest : Bytes) :
+    HeadInv rRepaired 200 (.cl 5) ∧
+    message rRepaired ⟨200, .stream 5 [[97, 98, 99, 100, 101]], []⟩ false =
+      [72, 84, 84, 80, 47, 49, 46, 49, 32, 50, 48, 48, 32, 79, 75, 13, 10, 83, 101, 114, 118, 101, 114, 58, 32, 104, 101, 114, 116, 122, 13, 10, 68, 97, 116, 101, 58, 32, 84, 117, 101, 44, 32, 50, 57, 32, 83, 101, 112, 32, 50, 48, 50, 54, 32, 49, 50, 58, 51, 54, 58, 52, 48, 32, 71, 77, 84, 13, 10, 67, 111, 110, 116, 101, 110, 116, 45, 84, 121, 112, 101, 58, 32, 116, 101, 120, 116, 47, 112, 108, 97, 105, 110, 59, 32, 99, 104, 97, 114, 115, 101, 116, 61, 117, 116, 102, 45, 56, 13, 10, 67, 111, 110, 116, 101, 110, 116, 45, 76, 101, 110, 103, 116, 104, 58, 32, 53, 13, 10, 13, 10, 97, 98, 99, 100, 101] ∧
+    decodeOne false (message rRepaired ⟨200, .stream 5 [[97, 98, 99, 100, 101]], []⟩ false ++ rest) =
+      some ({ status := 200, fields := HW.kept (withFraming rRepaired (.cl 5)).fields, framing := .cl 5,
+              raw := [97, 98, 99, 100, 101], body := [97, 98, 99, 100, 101], trailers := [] }, rest) := by
+  have hinv : HeadInv rRepaired 200 (.cl 5) :=
+    set_length_header_keeps_invariant _ 200 _ [53] 5
+      (set_content_length_keeps_invariant rNow 200 .none .chunked rNow_ok.inv (by intro n h; cases h))
+      (by decide +kernel)
+  refine ⟨hinv, by decide +kernel, ?_⟩
+  rw [response_decodes_any_state rRepaired (.cl 5) _ false rest hinv (by simp [SizesFit]) (by intro s h; cases h)
+    (by decide)]
+  generalize rRepaired = R
+  rfl
+
+/-- the repaired state no longer carries the `Transfer-Encoding` field, the old one did -/
+example : rRepaired.h = [] ∧ rRepaired.clBytes = [53] ∧ rRepaired.contentLength = 5 ∧
+    rBoth.h = [(Gen.Str.strTransferEncoding, Gen.Str.strChunked)] := by decide +kernel
 
 /-! ### where the statement is false: the hypotheses cannot be dropped -/
 
